@@ -369,6 +369,72 @@ func (ev *Evaluator) val(env map[ssa.Value]Val, v ssa.Value) (Val, error) {
 func (ev *Evaluator) load(a Val, pos token.Pos) (Val, error) {
 	switch p := a.(type) {
 	case ElemPtr:
+		// an element of a package-level literal table selected by a few bits of a tracked vector: if every index the
+		// unknown bits allow holds the same constant, that constant
+		if g, ok := p.Base.(Sym); ok && strings.HasPrefix(g.Name, "&") && ev.GlobalInit != nil {
+			if bits, ok := p.Index.(Bits); ok {
+				if tv, ok := ev.GlobalInit(g.Name[1:]); ok {
+					var elems func(i int64) (Val, bool)
+					switch t := tv.(type) {
+					case *ArrayV:
+						elems = func(i int64) (Val, bool) {
+							if c := t.Elems[i]; c != nil {
+								return c.V, true
+							}
+							return nil, false
+						}
+					case *SliceV:
+						elems = func(i int64) (Val, bool) {
+							if i >= 0 && i < int64(len(t.Elems)) {
+								return t.Elems[i].V, true
+							}
+							return nil, false
+						}
+					}
+					var unknown []int
+					base := int64(0)
+					okBits := elems != nil
+					for i, b := range bits.B {
+						switch b.K {
+						case '1':
+							if i < 62 {
+								base |= 1 << uint(i)
+							} else {
+								okBits = false
+							}
+						case '0':
+						default:
+							unknown = append(unknown, i)
+						}
+					}
+					if okBits && len(unknown) <= 4 {
+						var common Val
+						same := true
+						for m := 0; m < 1<<uint(len(unknown)) && same; m++ {
+							idx := base
+							for k, bi := range unknown {
+								if m>>uint(k)&1 == 1 {
+									idx |= 1 << uint(bi)
+								}
+							}
+							v, ok := elems(idx)
+							if !ok {
+								same = false
+								break
+							}
+							if common == nil {
+								common = v
+							} else if common.String() != v.String() {
+								same = false
+							}
+						}
+						if same && common != nil {
+							return common, nil
+						}
+					}
+				}
+			}
+		}
 		return Elem{Base: p.Base, Index: p.Index}, nil
 	case Ptr:
 		if p.Cell == nil {
